@@ -16,6 +16,16 @@
 //!  R5  TCP segment to a broadcast, multicast or loopback destination (everything in this harness
 //!      arrives from the network)  =>  the `{:?}` image of every TCP socket is unchanged.
 //!
+//! Observation: a socket "received" something iff its `{:?}` image differs between just before the
+//! frame and just after `poll_ingress_single` (sockets are only fed during ingress; the egress
+//! pass that follows is run to collect socket-originated answers such as SYN-ACKs). Frames are
+//! collected from `poll_ingress_single` plus the following `poll`s until nothing more comes out.
+//!
+//! Depth: every cell on a fresh interface (primed or cold neighbor cache); hand-picked first
+//! frames (ARP/NS teaching the peer, SYN moving the listener, SYN to broadcast with and without
+//! an egress pass in between, UDP filling a socket, complete handshake) followed by every cell;
+//! thorough tier: generic depth 2 (every cell as first frame, merged by state fingerprint).
+//!
 //! Lenient readings (the statement leaves room; the oracle demands no more than is written):
 //!  * "802.15.4 frames for another PAN" is the only 802.15.4 link-layer clause of the statement:
 //!    a frame for another station's extended address inside our PAN is NOT judged by R1 (radios
@@ -100,6 +110,13 @@ fn valid(c: &Cell) -> bool {
     if c.dst == Dst::Own2 && !two_addrs() {
         return false;
     }
+    if c.med == Med::Lowpan && c.joined {
+        // Not executable on this stack: `join_multicast_group` + `poll` on Medium::Ieee802154
+        // panics (`unreachable!()` in IpPayload::as_sixlowpan_next_header for the MLD report,
+        // src/iface/packet.rs) and keeps panicking on every later poll. Reported to the
+        // coordinator as a defect outside C11; group G is therefore never joined on 802.15.4.
+        return false;
+    }
     match c.kind {
         Kind::Arp => {
             // ARP: the "IP destination" is the target protocol address; there is no port
@@ -118,14 +135,27 @@ fn valid(c: &Cell) -> bool {
         }
         Kind::DnsResp => {
             // needs the pending query's port, learnt from the query on the wire
-            if c.sock != Sock::Dns || !(c.primed || c.med == Med::Ip) {
+            if c.sock != Sock::Dns {
                 return false;
             }
         }
         _ => {}
     }
+    if c.sock == Sock::Dns && !(c.primed || c.med == Med::Ip) {
+        // with a cold neighbor cache the DNS query stays queued behind neighbor discovery; a
+        // later frame that teaches the neighbor would release it and the DNS socket image would
+        // change for a reason that is not a delivery. The DNS configuration therefore only runs
+        // on the primed base.
+        return false;
+    }
     if c.med == Med::Ip && !c.primed {
         return false; // no neighbor cache on Medium::Ip: one base only
+    }
+    if let Some(f) = &c.auto_first {
+        let fc = Cell { kind: f.kind, ll: f.ll, dst: f.dst, src: f.src, port_match: f.port_match, auto_first: None, ..*c };
+        if c.prefix != Prefix::NoPrefix || !valid(&fc) {
+            return false;
+        }
     }
     match c.prefix {
         Prefix::NoPrefix => {}
@@ -150,6 +180,10 @@ struct Plan {
     prefixes: Vec<Prefix>,
     d2_socks: Vec<Sock>,
     d2_joined: Vec<bool>,
+    /// socket configurations run on the cold-neighbor-cache base
+    cold_socks: Vec<Sock>,
+    /// generic depth 2 (every state-changing cell as first frame)
+    auto_d2: bool,
 }
 
 fn plan(tier: Tier) -> Plan {
@@ -158,17 +192,21 @@ fn plan(tier: Tier) -> Plan {
             socks: Sock::ALL.to_vec(),
             joined: vec![false, true],
             primed: vec![true, false],
-            prefixes: vec![Prefix::Teach, Prefix::SynOwn, Prefix::SynBcast, Prefix::UdpOwn],
+            prefixes: vec![Prefix::Teach, Prefix::SynOwn, Prefix::SynBcast, Prefix::SynBcastQueued, Prefix::UdpOwn, Prefix::Handshake],
             d2_socks: vec![Sock::Std],
             d2_joined: vec![true],
+            cold_socks: vec![Sock::NoSock, Sock::Std],
+            auto_d2: false,
         },
         Tier::Thorough => Plan {
             socks: Sock::ALL.to_vec(),
             joined: vec![false, true],
             primed: vec![true, false],
-            prefixes: vec![Prefix::Teach, Prefix::SynOwn, Prefix::SynBcast, Prefix::UdpOwn],
+            prefixes: vec![Prefix::Teach, Prefix::SynOwn, Prefix::SynBcast, Prefix::SynBcastQueued, Prefix::UdpOwn, Prefix::Handshake],
             d2_socks: Sock::ALL.to_vec(),
             d2_joined: vec![false, true],
+            cold_socks: Sock::ALL.to_vec(),
+            auto_d2: true,
         },
     }
 }
@@ -183,13 +221,16 @@ fn enumerate(p: &Plan) -> Vec<Cell> {
             for &ver in Ver::ALL {
                 for &primed in &p.primed {
                     for &sock in socks {
+                        if !primed && !p.cold_socks.contains(&sock) {
+                            continue;
+                        }
                         for &joined in joineds {
                             for &kind in Kind::ALL {
                                 for &ll in ll_alphabet(med) {
                                     for &dst in Dst::ALL {
                                         for &src in Src::ALL {
                                             for &port_match in &[true, false] {
-                                                let c = Cell { med, ver, kind, ll, dst, src, port_match, sock, joined, primed, prefix };
+                                                let c = Cell { med, ver, kind, ll, dst, src, port_match, sock, joined, primed, prefix, auto_first: None };
                                                 if valid(&c) {
                                                     v.push(c);
                                                 }
@@ -311,8 +352,8 @@ fn prefix_frame(c: &Cell, w: &World) -> Option<Vec<u8>> {
     match c.prefix {
         Prefix::NoPrefix => None,
         Prefix::Teach => Some(w.teach_frame(&a.peer, &PEER_MAC, &PEER_EXT)),
-        Prefix::SynOwn => Some(build_frame(&Cell { kind: Kind::TcpSyn, dst: Dst::Own, ..base }, w, 0)),
-        Prefix::SynBcast => {
+        Prefix::SynOwn | Prefix::Handshake => Some(build_frame(&Cell { kind: Kind::TcpSyn, dst: Dst::Own, ..base }, w, 0)),
+        Prefix::SynBcast | Prefix::SynBcastQueued => {
             let dst = if c.ver == Ver::V4 { Dst::SubnetBcast } else { Dst::AllNodes };
             let ll = match c.med {
                 Med::Ip => LlDst::NoLl,
@@ -336,18 +377,29 @@ struct Exec {
     pre_images: Vec<(&'static str, String)>,
     post_images: Vec<(&'static str, String)>,
     pre_tcp: Option<TcpSnap>,
+    /// after `poll_ingress_single`, before the egress poll
+    mid_images: Vec<(&'static str, String)>,
+    mid_tcp: Option<TcpSnap>,
     post_tcp: Option<TcpSnap>,
     outs: Vec<Out>,
     setup_log: Vec<String>,
     errors: Vec<String>,
+    /// fingerprint of the complete state after the cell (state merging only)
+    state_fp: u128,
 }
 
 fn execute(c: &Cell) -> Exec {
+    execute_opt(c, false)
+}
+
+fn execute_opt(c: &Cell, want_state_fp: bool) -> Exec {
     let mut w = World::new(c.med, c.ver, c.sock, c.joined, c.primed);
     let mut ack = DEFAULT_ACK;
     let mut prefix_hex = None;
     let mut prefix_outs = vec![];
-    if let Some(pf) = prefix_frame(c, &w) {
+    if let Some(f) = &c.auto_first {
+        let fc = Cell { kind: f.kind, ll: f.ll, dst: f.dst, src: f.src, port_match: f.port_match, auto_first: None, ..*c };
+        let pf = build_frame(&fc, &w, ack);
         prefix_hex = Some(pkt::hex(&pf));
         prefix_outs = w.apply(&pf);
         for o in &prefix_outs {
@@ -357,17 +409,54 @@ fn execute(c: &Cell) -> Exec {
                 }
             }
         }
-        // the first frame must be fully digested before the cell's frame is judged
         let extra = w.poll_collect();
         if !extra.is_empty() {
-            w.errors.push("prefix not quiescent".into());
+            w.errors.push("first frame not quiescent".into());
+        }
+    }
+    if let Some(pf) = prefix_frame(c, &w) {
+        prefix_hex = Some(pkt::hex(&pf));
+        prefix_outs = if c.prefix == Prefix::SynBcastQueued { w.apply_ingress_only(&pf) } else { w.apply(&pf) };
+        for o in &prefix_outs {
+            if o.kind == OutKind::TcpSynAck {
+                if let Some((_, _, seq, _, _)) = o.l4 {
+                    ack = seq.wrapping_add(1);
+                }
+            }
+        }
+        if c.prefix == Prefix::Handshake {
+            // third step of the handshake (depth 3): ACK of the stack's SYN-ACK
+            let base = Cell { kind: Kind::TcpAck, dst: Dst::Own, src: Src::OnLink, port_match: true, ..*c };
+            let base = Cell {
+                ll: match c.med {
+                    Med::Ip => LlDst::NoLl,
+                    Med::Eth => LlDst::Own,
+                    Med::Lowpan => LlDst::PanOwnExtOwn,
+                },
+                ..base
+            };
+            let f2 = build_frame(&base, &w, ack);
+            prefix_hex = Some(format!("{} then {}", prefix_hex.unwrap_or_default(), pkt::hex(&f2)));
+            prefix_outs.extend(w.apply(&f2));
+            if c.sock != Sock::NoSock && w.tcp_snap().map(|t| t.state) != Some("Established".to_string()) {
+                w.errors.push("handshake prefix did not establish the connection".into());
+            }
+        }
+        // the first frame must be fully digested before the cell's frame is judged
+        if c.prefix != Prefix::SynBcastQueued {
+            let extra = w.poll_collect();
+            if !extra.is_empty() {
+                w.errors.push("prefix not quiescent".into());
+            }
         }
     }
     let frame = build_frame(c, &w, ack);
     let pre_images = w.images();
     let pre_tcp = w.tcp_snap();
-    let outs = w.apply(&frame);
+    let (outs, (mid_images, mid_tcp)) = w.apply_mid(&frame);
     Exec {
+        mid_images,
+        mid_tcp,
         prefix_hex,
         prefix_outs,
         frame_hex: pkt::hex(&frame),
@@ -375,6 +464,7 @@ fn execute(c: &Cell) -> Exec {
         post_images: w.images(),
         pre_tcp,
         post_tcp: w.tcp_snap(),
+        state_fp: if want_state_fp { w.state_fp() } else { 0 },
         outs,
         setup_log: std::mem::take(&mut w.setup_log),
         errors: std::mem::take(&mut w.errors),
@@ -401,8 +491,10 @@ fn judge(c: &Cell, e: &Exec) -> Verdict {
     let d = c.dst.name();
 
     // ---- observations ----
-    for ((n, pre), (_, post)) in e.pre_images.iter().zip(e.post_images.iter()) {
-        if pre != post {
+    // delivery = the socket image changed during `poll_ingress_single` (sockets are only fed
+    // there; later changes are consequences in the egress pass, e.g. a SYN-ACK timer)
+    for ((n, pre), (_, mid)) in e.pre_images.iter().zip(e.mid_images.iter()) {
+        if pre != mid {
             v.delivered.push(*n);
         }
     }
@@ -456,6 +548,18 @@ fn judge(c: &Cell, e: &Exec) -> Verdict {
         } else {
             v.notes.push("lowpan_other_station_silent");
         }
+    }
+
+    if matches!(c.dst, Dst::Loopback | Dst::Unspec) && ll_trigger.is_none() {
+        if !v.delivered.is_empty() {
+            v.notes.push(if c.dst == Dst::Loopback { "loopback_dst_from_network_delivered" } else { "unspecified_dst_delivered" });
+        }
+        if !replies.is_empty() {
+            v.notes.push(if c.dst == Dst::Loopback { "loopback_dst_from_network_answered" } else { "unspecified_dst_answered" });
+        }
+    }
+    if c.sock == Sock::Bound && c.dst.is_bcast_mcast() && v.delivered.contains(&"udp") {
+        v.notes.push("addr_bound_udp_socket_received_bcast_or_mcast");
     }
 
     // ---- R2 ----
@@ -570,8 +674,15 @@ fn judge(c: &Cell, e: &Exec) -> Verdict {
     if c.kind.is_tcp() && (c.dst.is_bcast_mcast() || c.dst == Dst::Loopback) && c.sock != Sock::NoSock {
         v.relevant[R5] = true;
         if v.delivered.contains(&"tcp") {
-            let (o, n) = (e.pre_tcp.as_ref().map(|t| t.state.clone()).unwrap_or_default(), e.post_tcp.as_ref().map(|t| t.state.clone()).unwrap_or_default());
-            let what = if o != n { format!("tcp-socket-{}-to-{}", o, n) } else { format!("tcp-socket-image-changed-in-{}", o) };
+            let st = |t: &Option<TcpSnap>| t.as_ref().map(|t| t.state.clone()).unwrap_or_default();
+            let (o, m, n) = (st(&e.pre_tcp), st(&e.mid_tcp), st(&e.post_tcp));
+            let what = if m != n {
+                format!("tcp-socket-{}-to-{}-then-{}", o, m, n)
+            } else if o != n {
+                format!("tcp-socket-{}-to-{}", o, n)
+            } else {
+                format!("tcp-socket-image-changed-in-{}", o)
+            };
             v.viols.push((R5, format!("C11/R5/{}/{}/{}/{}", k, ver, d, what), format!("TCP segment to {} ({}) changed the TCP socket: {}", d, dst, what)));
         }
     }
@@ -599,7 +710,7 @@ fn detail(c: &Cell, e: &Exec, what: &str) -> String {
     }
     if let (Some(a), Some(b)) = (&e.pre_tcp, &e.post_tcp) {
         if a != b {
-            s.push_str(&format!("\ntcp socket: {:?} -> {:?}", a, b));
+            s.push_str(&format!("\ntcp socket: {} -> after ingress {} -> after egress {}", a.describe(), e.mid_tcp.as_ref().map(|t| t.describe()).unwrap_or_default(), b.describe()));
         }
     }
     s
@@ -618,7 +729,8 @@ struct CellRes {
 
 fn obs_fingerprint(e: &Exec) -> u128 {
     let outs: Vec<String> = e.outs.iter().map(|o| pkt::hex(&o.raw)).collect();
-    fp128(&(outs, &e.post_images.iter().map(|x| x.1.clone()).collect::<Vec<_>>(), &e.frame_hex))
+    let img = |v: &Vec<(&'static str, String)>| v.iter().map(|x| x.1.clone()).collect::<Vec<_>>();
+    fp128(&(outs, img(&e.mid_images), img(&e.post_images), &e.frame_hex))
 }
 
 fn run_cell(idx: usize, c: &Cell) -> CellRes {
@@ -646,7 +758,11 @@ fn run_cell(idx: usize, c: &Cell) -> CellRes {
                     _ => errors.push(format!("NONDETERMINISM: re-execution differs | cell: {}", c.describe())),
                 }
             }
-            CellRes { verdict, details, errors, panic: None, frames_in: 1 + e.prefix_hex.is_some() as u32, validated, obs_fp: fp }
+            CellRes { verdict, details, errors, panic: None, frames_in: 1 + c.auto_first.is_some() as u32 + match c.prefix {
+                Prefix::NoPrefix => 0,
+                Prefix::Handshake => 2,
+                _ => 1,
+            }, validated, obs_fp: fp }
         }
     }
 }
@@ -655,13 +771,216 @@ fn run_cell(idx: usize, c: &Cell) -> CellRes {
 // run
 // ---------------------------------------------------------------------------------------
 
+/// Ordered, sequential aggregation of cell results (deterministic whatever the thread count).
+struct Agg {
+    per_rule_rel: [u64; 5],
+    per_rule_viol_cells: [u64; 5],
+    outcomes: BTreeMap<String, u64>,
+    outcome_by_kind: BTreeMap<String, BTreeMap<String, u64>>,
+    per_med: BTreeMap<String, u64>,
+    per_depth: BTreeMap<String, u64>,
+    delivered_per_socket: BTreeMap<String, u64>,
+    notes: BTreeMap<String, u64>,
+    sig_cells: BTreeMap<String, u64>,
+    distinct: BTreeSet<(Kind, Ver, Dst, Src, String)>,
+    obs_distinct: BTreeSet<u128>,
+    frames_in: u64,
+    validated: u64,
+    cells: u64,
+    panics: Vec<String>,
+    class_counts: [u64; 3], // delivered / replied / silent
+    sample_done: Vec<bool>,
+    sample_cells: Vec<(&'static str, Cell)>,
+}
+
+type Pred = fn(&Cell, &Verdict) -> bool;
+/// curated samples: the first cell (in enumeration order) matching each description
+fn sample_wants() -> Vec<(&'static str, Pred)> {
+    vec![
+        ("ARP request for our address in a broadcast frame -> ARP reply", |c, v| c.kind == Kind::Arp && c.dst == Dst::Own && c.ll == LlDst::Bcast && c.src == Src::OnLink && v.outcome.contains("arp-reply")),
+        ("ARP request for our address in a frame for another station -> silent (R1)", |c, _| c.kind == Kind::Arp && c.dst == Dst::Own && c.ll == LlDst::OtherUni && c.src == Src::OnLink),
+        ("NS for our address to the solicited-node group over 802.15.4 -> NA", |c, v| c.med == Med::Lowpan && c.kind == Kind::Ns && c.dst == Dst::SolNode && c.port_match && c.src == Src::OnLink && v.outcome.contains("ndisc-na")),
+        ("UDP to our port over 802.15.4, other PAN (R1)", |c, _| c.med == Med::Lowpan && c.kind == Kind::Udp && c.dst == Dst::Own && c.ll == LlDst::PanOtherExtOwn && c.port_match && c.sock == Sock::Std && c.src == Src::OnLink),
+        ("UDP to our port, own address -> delivered", |c, v| c.med == Med::Eth && c.kind == Kind::Udp && c.dst == Dst::Own && c.ll == LlDst::Own && c.port_match && c.sock == Sock::Std && c.src == Src::OnLink && !v.delivered.is_empty()),
+        ("UDP to a foreign on-link address arriving at our MAC (R1)", |c, _| c.med == Med::Eth && c.kind == Kind::Udp && c.dst == Dst::OtherOnLink && c.ll == LlDst::Own && c.port_match && c.sock == Sock::Std && c.src == Src::OnLink),
+        ("UDP to the second own address, sockets bound to the first (R2)", |c, _| c.kind == Kind::Udp && c.dst == Dst::Own2 && c.port_match && c.sock == Sock::Bound && c.src == Src::OnLink),
+        ("IPv4 UDP to the subnet broadcast, closed port (R3: must stay silent)", |c, _| c.ver == Ver::V4 && c.kind == Kind::Udp && c.dst == Dst::SubnetBcast && !c.port_match && c.sock == Sock::Std && c.src == Src::OnLink),
+        ("IPv6 UDP to all-nodes, closed port (R3)", |c, _| c.ver == Ver::V6 && c.kind == Kind::Udp && c.dst == Dst::AllNodes && !c.port_match && c.sock == Sock::Std && c.src == Src::OnLink),
+        ("echo request to all-nodes -> echo reply (allowed)", |c, v| c.kind == Kind::Echo && c.dst == Dst::AllNodes && c.src == Src::OnLink && v.outcome.contains("echo-reply")),
+        ("TCP RST for a closed port (R4: no answer)", |c, _| c.kind == Kind::TcpRst && c.dst == Dst::Own && !c.port_match && c.sock == Sock::Std && c.src == Src::OnLink),
+        ("data segment on the connection established by the depth-3 prefix -> delivered", |c, v| c.prefix == Prefix::Handshake && c.kind == Kind::TcpData && c.dst == Dst::Own && c.port_match && c.src == Src::OnLink && v.delivered.contains(&"tcp")),
+    ]
+}
+
+impl Agg {
+    fn new() -> Agg {
+        Agg {
+            per_rule_rel: [0; 5],
+            per_rule_viol_cells: [0; 5],
+            outcomes: BTreeMap::new(),
+            outcome_by_kind: BTreeMap::new(),
+            per_med: BTreeMap::new(),
+            per_depth: BTreeMap::new(),
+            delivered_per_socket: BTreeMap::new(),
+            notes: BTreeMap::new(),
+            sig_cells: BTreeMap::new(),
+            distinct: BTreeSet::new(),
+            obs_distinct: BTreeSet::new(),
+            frames_in: 0,
+            validated: 0,
+            cells: 0,
+            panics: vec![],
+            class_counts: [0; 3],
+            sample_done: vec![false; sample_wants().len()],
+            sample_cells: vec![],
+        }
+    }
+
+    /// execute a batch in parallel (bounded memory: chunks), aggregate in enumeration order
+    fn run_batch(&mut self, rep: &mut Report, cells: &[Cell]) {
+        let wants = sample_wants();
+        for chunk in cells.chunks(65536) {
+            let base = self.cells as usize;
+            let results: Vec<CellRes> = chunk.par_iter().enumerate().map(|(i, c)| run_cell(base + i, c)).collect();
+            for (c, r) in chunk.iter().zip(results.iter()) {
+                self.add(rep, &wants, c, r);
+            }
+        }
+    }
+
+    fn add(&mut self, rep: &mut Report, wants: &[(&'static str, Pred)], c: &Cell, r: &CellRes) {
+        self.cells += 1;
+        if let Some(p) = &r.panic {
+            self.panics.push(p.clone());
+            return;
+        }
+        for e in &r.errors {
+            if rep.machinery_errors.len() < 20 {
+                rep.machinery_errors.push(format!("{} | cell: {}", e, c.describe()));
+            }
+        }
+        self.frames_in += r.frames_in as u64;
+        self.validated += r.validated as u64;
+        self.obs_distinct.insert(r.obs_fp);
+        let v = &r.verdict;
+        *self.outcomes.entry(v.outcome.clone()).or_insert(0) += 1;
+        *self.outcome_by_kind.entry(c.kind.name().to_string()).or_default().entry(v.outcome.clone()).or_insert(0) += 1;
+        *self.per_med.entry(format!("{}/{}", c.med.name(), c.ver.name())).or_insert(0) += 1;
+        let depth = if c.auto_first.is_some() { "first-frame=auto(every state-changing cell, merged by state fingerprint)".to_string() } else { format!("first-frame={}", c.prefix.name()) };
+        *self.per_depth.entry(depth).or_insert(0) += 1;
+        if !v.delivered.is_empty() {
+            self.class_counts[0] += 1;
+        }
+        if v.outcome.contains("replied[") {
+            self.class_counts[1] += 1;
+        }
+        if v.outcome == "silent" {
+            self.class_counts[2] += 1;
+        }
+        for s in &v.delivered {
+            *self.delivered_per_socket.entry(s.to_string()).or_insert(0) += 1;
+        }
+        for n in &v.notes {
+            *self.notes.entry(n.to_string()).or_insert(0) += 1;
+        }
+        self.distinct.insert((c.kind, c.ver, c.dst, c.src, v.outcome.clone()));
+        let mut rules_hit = [false; 5];
+        for i in 0..5 {
+            if v.relevant[i] {
+                self.per_rule_rel[i] += 1;
+            }
+        }
+        for ((rule, sig, _), det) in v.viols.iter().zip(r.details.iter()) {
+            rules_hit[*rule] = true;
+            *self.sig_cells.entry(sig.clone()).or_insert(0) += 1;
+            rep.violation(sig.clone(), det.clone(), json!({"type": "cell", "cell": c.to_json()}));
+        }
+        for i in 0..5 {
+            if rules_hit[i] {
+                self.per_rule_viol_cells[i] += 1;
+            }
+        }
+        for (i, (what, pred)) in wants.iter().enumerate() {
+            if !self.sample_done[i] && pred(c, v) {
+                self.sample_done[i] = true;
+                self.sample_cells.push((*what, *c));
+            }
+        }
+    }
+}
+
+/// Generic depth 2 (thorough tier): on one base configuration per medium/IP version, EVERY cell
+/// is tried as first frame; first frames are merged by the fingerprint of the state they leave
+/// behind (`Interface::verif_digest()` + `{:?}` of the SocketSet — used for merging only, never
+/// as oracle) and one representative per distinct state other than the initial one is followed
+/// by every cell of the same base.
+fn auto_depth2(rep: &mut Report, agg: &mut Agg) -> Value {
+    let mut info = vec![];
+    for &med in &[Med::Ip, Med::Eth, Med::Lowpan] {
+        for &ver in Ver::ALL {
+            let joined = med != Med::Lowpan;
+            let mut base: Vec<Cell> = vec![];
+            for &kind in Kind::ALL {
+                for &ll in ll_alphabet(med) {
+                    for &dst in Dst::ALL {
+                        for &src in Src::ALL {
+                            for &port_match in &[true, false] {
+                                let c = Cell { med, ver, kind, ll, dst, src, port_match, sock: Sock::Std, joined, primed: true, prefix: Prefix::NoPrefix, auto_first: None };
+                                if valid(&c) {
+                                    base.push(c);
+                                }
+                            }
+                        }
+                    }
+                }
+            }
+            if base.is_empty() {
+                continue;
+            }
+            let fps: Vec<Option<u128>> = base.par_iter().map(|c| catch_unwind(AssertUnwindSafe(|| execute_opt(c, true).state_fp)).ok()).collect();
+            let initial = catch_unwind(AssertUnwindSafe(|| {
+                let w = World::new(med, ver, Sock::Std, joined, true);
+                w.state_fp()
+            }))
+            .ok();
+            let mut reps: BTreeMap<u128, usize> = BTreeMap::new();
+            for (i, fp) in fps.iter().enumerate() {
+                if let Some(fp) = fp {
+                    if Some(*fp) != initial {
+                        reps.entry(*fp).or_insert(i);
+                    }
+                }
+            }
+            let mut firsts: Vec<usize> = reps.values().copied().collect();
+            firsts.sort();
+            let mut cells2 = Vec::with_capacity(firsts.len() * base.len());
+            for &fi in &firsts {
+                let f = &base[fi];
+                let first = First { kind: f.kind, ll: f.ll, dst: f.dst, src: f.src, port_match: f.port_match };
+                for c in &base {
+                    cells2.push(Cell { auto_first: Some(first), ..*c });
+                }
+            }
+            info.push(json!({
+                "base": format!("{}/{} sockets=std joined={} primed", med.name(), ver.name(), joined),
+                "first_frame_candidates": base.len(),
+                "distinct_states_after_first_frame_other_than_initial": firsts.len(),
+                "depth2_cells": cells2.len(),
+                "representative_first_frames": firsts.iter().take(200).map(|&i| { let f = &base[i]; format!("{} ll={} dst={} src={} match={}", f.kind.name(), f.ll.name(), f.dst.name(), f.src.name(), f.port_match) }).collect::<Vec<_>>(),
+            }));
+            agg.run_batch(rep, &cells2);
+        }
+    }
+    json!(info)
+}
+
 pub fn run(tier: Tier) -> i32 {
     let mut rep = Report::new("C11", tier);
     rep.assumptions.push("every cell runs on a fresh Interface/SocketSet at one fixed Instant (1.000 s); no timers expire, no fragments, no IP options/extension headers; checksum offload off (stack verifies and computes all checksums)".into());
     rep.assumptions.push("emitted Ethernet/IP frames are classified by an own parser (addr/pkt.rs, wirecheck.rs); for IEEE 802.15.4 the MAC header is parsed by own code and smoltcp::wire is used ONLY to undo IPHC/UDP-NHC compression, the reconstructed IPv6 packet is classified by the own parser".into());
-    rep.assumptions.push("delivery to a socket = the `{:?}` image of that TCP/UDP/ICMP/DNS socket differs after the frame (positive controls below prove every socket type shows deliveries); raw sockets are not judged".into());
+    rep.assumptions.push("delivery to a socket = the `{:?}` image of that TCP/UDP/ICMP/DNS socket differs between just before the frame and just after `poll_ingress_single` (positive controls prove every socket type shows deliveries); raw sockets are not judged".into());
     rep.assumptions.push("lenient readings: see the comment block at the top of src/addr.rs (802.15.4 other station in own PAN, multicast MAC, unspecified/loopback destination under R1, bound UDP socket + broadcast, R3 at IP layer only, loopback/own source not 'non-unicast')".into());
-    rep.assumptions.push(format!("interface: one IP version per cell with {} own address(es) (IFACE_MAX_ADDR_COUNT={}), default route via an on-link gateway, PAN id 0xbeef on 802.15.4", if two_addrs() { 2 } else { 1 }, smoltcp::config::IFACE_MAX_ADDR_COUNT));
+    rep.assumptions.push(format!("interface: one IP version per cell with {} own address(es) (IFACE_MAX_ADDR_COUNT={}), default route via an on-link gateway, PAN id 0xbeef on 802.15.4; group G can not be joined on 802.15.4 (join + poll panics in the stack, see report)", if two_addrs() { 2 } else { 1 }, smoltcp::config::IFACE_MAX_ADDR_COUNT));
 
     let p = plan(tier);
     let cells = enumerate(&p);
@@ -681,87 +1000,34 @@ pub fn run(tier: Tier) -> i32 {
             "socket_configuration_depth1": p.socks.iter().map(|x| x.name()).collect::<Vec<_>>(),
             "group_g_joined_depth1": p.joined,
             "neighbor_cache": ["primed(peer+gateway)", "cold (ethernet/802.15.4 only)"],
+            "socket_configuration_on_cold_base": p.cold_socks.iter().map(|x| x.name()).collect::<Vec<_>>(),
             "depth2_first_frames": p.prefixes.iter().map(|x| x.name()).collect::<Vec<_>>(),
             "socket_configuration_depth2": p.d2_socks.iter().map(|x| x.name()).collect::<Vec<_>>(),
             "group_g_joined_depth2": p.d2_joined,
+            "generic_depth2": p.auto_d2,
         }),
     );
-    rep.cov("rule", json!("full product of the dimensions above, filtered by `valid()` (6LoWPAN => IPv6; ARP => Ethernet/IPv4, target classes own/own2/other/offlink/bcast/unspec; NS => IPv6; DNS response => std+dns sockets; address classes that do not exist for the IP version dropped; cold neighbor cache only where a cache exists; first frame 'teach' on the cold base, the other first frames on the primed base). A cell = one frame injected into a fresh interface (after the optional first frame). states = distinct (kind, version, dst class, src class, outcome) tuples; transitions = frames injected; validated = cells re-executed on a second fresh interface with byte-identical output frames and socket images."));
+    rep.cov("rule", json!("full product of the dimensions above, filtered by `valid()` (6LoWPAN => IPv6; ARP => Ethernet/IPv4, target classes own/own2/other/offlink/bcast/unspec; NS => IPv6; DNS response => std+dns sockets; address classes that do not exist for the IP version dropped; group G never joined on 802.15.4; cold neighbor cache only where a cache exists and not with the DNS socket; first frame 'teach' on the cold base, the other first frames on the primed base). A cell = one frame injected into a fresh interface (after the optional first frame(s)). Thorough tier additionally: generic depth 2 (see generic_depth2). states = distinct (kind, version, dst class, src class, outcome) tuples; transitions = frames injected; validated = cells re-executed on a second fresh interface with byte-identical output frames and socket images (every 16th cell and every violating cell)."));
 
-    let results: Vec<CellRes> = cells.par_iter().enumerate().map(|(i, c)| run_cell(i, c)).collect();
+    let mut agg = Agg::new();
+    agg.run_batch(&mut rep, &cells);
+    if p.auto_d2 {
+        let info = auto_depth2(&mut rep, &mut agg);
+        rep.cov("generic_depth2", info);
+    }
 
-    // sequential, ordered aggregation (deterministic)
-    let mut per_rule_rel = [0u64; 5];
-    let mut per_rule_viol_cells = [0u64; 5];
-    let mut outcomes: BTreeMap<String, u64> = BTreeMap::new();
-    let mut outcome_by_kind: BTreeMap<String, BTreeMap<String, u64>> = BTreeMap::new();
-    let mut per_med: BTreeMap<String, u64> = BTreeMap::new();
-    let mut per_depth: BTreeMap<String, u64> = BTreeMap::new();
-    let mut delivered_per_socket: BTreeMap<String, u64> = BTreeMap::new();
-    let mut notes: BTreeMap<String, u64> = BTreeMap::new();
-    let mut sig_cells: BTreeMap<String, u64> = BTreeMap::new();
-    let mut distinct: BTreeSet<(Kind, Ver, Dst, Src, String)> = BTreeSet::new();
-    let mut obs_distinct: BTreeSet<u128> = BTreeSet::new();
-    let mut frames_in = 0u64;
-    let mut validated = 0u64;
-    let mut panics: Vec<String> = vec![];
-    let mut class_counts = [0u64; 3]; // delivered / replied / silent
-    let mut sample_outcomes: BTreeSet<String> = BTreeSet::new();
-    for (c, r) in cells.iter().zip(results.iter()) {
-        if let Some(p) = &r.panic {
-            panics.push(p.clone());
-            continue;
-        }
-        for e in &r.errors {
-            if rep.machinery_errors.len() < 20 {
-                rep.machinery_errors.push(format!("{} | cell: {}", e, c.describe()));
-            }
-        }
-        frames_in += r.frames_in as u64;
-        validated += r.validated as u64;
-        obs_distinct.insert(r.obs_fp);
-        let v = &r.verdict;
-        *outcomes.entry(v.outcome.clone()).or_insert(0) += 1;
-        *outcome_by_kind.entry(c.kind.name().to_string()).or_default().entry(v.outcome.clone()).or_insert(0) += 1;
-        *per_med.entry(format!("{}/{}", c.med.name(), c.ver.name())).or_insert(0) += 1;
-        *per_depth.entry(format!("prefix={}", c.prefix.name())).or_insert(0) += 1;
-        if !v.delivered.is_empty() {
-            class_counts[0] += 1;
-        }
-        if v.outcome.contains("replied[") {
-            class_counts[1] += 1;
-        }
-        if v.outcome == "silent" {
-            class_counts[2] += 1;
-        }
-        for s in &v.delivered {
-            *delivered_per_socket.entry(s.to_string()).or_insert(0) += 1;
-        }
-        for n in &v.notes {
-            *notes.entry(n.to_string()).or_insert(0) += 1;
-        }
-        distinct.insert((c.kind, c.ver, c.dst, c.src, v.outcome.clone()));
-        let mut rules_hit = [false; 5];
-        for i in 0..5 {
-            if v.relevant[i] {
-                per_rule_rel[i] += 1;
-            }
-        }
-        for ((rule, sig, _), det) in v.viols.iter().zip(r.details.iter()) {
-            rules_hit[*rule] = true;
-            *sig_cells.entry(sig.clone()).or_insert(0) += 1;
-            rep.violation(sig.clone(), det.clone(), json!({"type": "cell", "cell": c.to_json()}));
-        }
-        for i in 0..5 {
-            if rules_hit[i] {
-                per_rule_viol_cells[i] += 1;
-            }
-        }
-        if sample_outcomes.insert(format!("{}/{}", c.kind.name(), v.outcome)) && rep.samples.len() < 12 && c.prefix == Prefix::NoPrefix {
-            rep.samples.push(json!({"cell": c.to_json(), "outcome": v.outcome}));
+    for (what, c) in &agg.sample_cells {
+        if let Ok(e) = catch_unwind(AssertUnwindSafe(|| execute(c))) {
+            let v = judge(c, &e);
+            rep.samples.push(json!({
+                "what": what, "cell": c.to_json(), "first_frames_in": e.prefix_hex, "frame_in": e.frame_hex,
+                "frames_out": e.outs.iter().map(|o| format!("{} [{}]", o.describe(), pkt::hex(&o.raw))).collect::<Vec<_>>(),
+                "sockets_changed_by_ingress": v.delivered, "outcome": v.outcome,
+                "violations": v.viols.iter().map(|x| x.1.clone()).collect::<Vec<_>>(),
+            }));
         }
     }
-    for p in panics.iter().take(10) {
+    for p in agg.panics.iter().take(10) {
         rep.machinery_errors.push(format!("panic while executing a cell: {}", p));
     }
 
@@ -769,40 +1035,40 @@ pub fn run(tier: Tier) -> i32 {
     // once, otherwise "nothing happened" verdicts would be vacuous
     if p.socks.contains(&Sock::Std) {
         for s in ["tcp", "udp", "icmp-ident", "icmp-udp"] {
-            if delivered_per_socket.get(s).copied().unwrap_or(0) == 0 {
+            if agg.delivered_per_socket.get(s).copied().unwrap_or(0) == 0 {
                 rep.machinery_errors.push(format!("positive control failed: no cell ever delivered to socket '{}'", s));
             }
         }
     }
-    if p.socks.contains(&Sock::Dns) && delivered_per_socket.get("dns").copied().unwrap_or(0) == 0 {
+    if p.socks.contains(&Sock::Dns) && agg.delivered_per_socket.get("dns").copied().unwrap_or(0) == 0 {
         rep.machinery_errors.push("positive control failed: no cell ever delivered to the DNS socket".into());
     }
     for want in ["tcp-rst", "icmp-error-3-3", "icmp-error-1-4", "echo-reply", "arp-reply", "ndisc-na", "tcp-synack"] {
-        if !outcomes.keys().any(|o| o.contains(want)) {
+        if !agg.outcomes.keys().any(|o| o.contains(want)) {
             rep.machinery_errors.push(format!("positive control failed: no cell ever produced '{}'", want));
         }
     }
 
-    rep.add_count("states", distinct.len() as u64);
-    rep.add_count("transitions", frames_in);
-    rep.add_count("evaluations", cells.len() as u64);
-    rep.add_count("traces_validated_against_impl", validated);
-    rep.add_count("distinct_nontrivial", obs_distinct.len() as u64);
-    rep.cov("cells_executed", json!(cells.len()));
-    rep.cov("cells_per_medium_version", json!(per_med));
-    rep.cov("cells_per_first_frame", json!(per_depth));
-    rep.cov("cells_per_outcome_class", json!({"delivered_to_some_socket": class_counts[0], "some_frame_emitted": class_counts[1], "silent": class_counts[2]}));
-    rep.cov("cells_per_outcome", json!(outcomes));
-    rep.cov("outcome_by_packet_kind", json!(outcome_by_kind));
-    rep.cov("deliveries_per_socket", json!(delivered_per_socket));
+    rep.add_count("states", agg.distinct.len() as u64);
+    rep.add_count("transitions", agg.frames_in);
+    rep.add_count("evaluations", agg.cells);
+    rep.add_count("traces_validated_against_impl", agg.validated);
+    rep.add_count("distinct_nontrivial", agg.obs_distinct.len() as u64);
+    rep.cov("cells_executed", json!(agg.cells));
+    rep.cov("cells_per_medium_version", json!(agg.per_med));
+    rep.cov("cells_per_first_frame", json!(agg.per_depth));
+    rep.cov("cells_per_outcome_class", json!({"delivered_to_some_socket": agg.class_counts[0], "some_frame_emitted": agg.class_counts[1], "silent": agg.class_counts[2]}));
+    rep.cov("cells_per_outcome", json!(agg.outcomes));
+    rep.cov("outcome_by_packet_kind", json!(agg.outcome_by_kind));
+    rep.cov("deliveries_per_socket", json!(agg.delivered_per_socket));
     let mut pr = serde_json::Map::new();
     for i in 0..5 {
-        pr.insert(RULES[i].into(), json!({"relevant_cells": per_rule_rel[i], "violating_cells": per_rule_viol_cells[i]}));
+        pr.insert(RULES[i].into(), json!({"relevant_cells": agg.per_rule_rel[i], "violating_cells": agg.per_rule_viol_cells[i]}));
     }
     rep.cov("per_rule", Value::Object(pr));
-    rep.cov("cells_per_signature", json!(sig_cells));
-    rep.cov("observations", json!(notes));
-    rep.cov("panics", json!(panics.len()));
+    rep.cov("cells_per_signature", json!(agg.sig_cells));
+    rep.cov("observations", json!(agg.notes));
+    rep.cov("panics", json!(agg.panics.len()));
     rep.and_exhaustive(true);
     rep.finish()
 }
@@ -847,8 +1113,10 @@ pub fn replay(art: &Value) -> i32 {
     if e.outs.is_empty() {
         println!("   (no frame out)");
     }
-    println!("tcp socket before: {:?}", e.pre_tcp);
-    println!("tcp socket after : {:?}", e.post_tcp);
+    let ds = |t: &Option<TcpSnap>| t.as_ref().map(|t| t.describe()).unwrap_or_else(|| "(no tcp socket)".into());
+    println!("tcp socket before        : {}", ds(&e.pre_tcp));
+    println!("tcp socket after ingress : {}", ds(&e.mid_tcp));
+    println!("tcp socket after egress  : {}", ds(&e.post_tcp));
     for d in image_diff(&e) {
         println!("socket image changed: {}", d);
     }
